@@ -142,6 +142,12 @@ func genInnerQuery(t *rapid.T, tb *Table, label string) (string, *Table) {
 	if rapid.IntRange(0, 1).Draw(t, label+".haswhere") == 0 {
 		where = " WHERE " + sq.Render(genPred(t, tb, &PredSpec{Core: true}, rapid.IntRange(0, 1).Draw(t, label+".wdepth"), label+".w"), nil)
 	}
+	if len(nums) > 0 && rapid.IntRange(0, 7).Draw(t, label+".whole") == 0 {
+		// un-grouped aggregates: one row; the outer stage may use the very same aggregate texts
+		v := nums[rapid.IntRange(0, len(nums)-1).Draw(t, label+".wcol")]
+		out := &Table{Cols: []Col{{Name: "cnt", Kind: "int", Pool: []any{1.0, 2.0, 3.0}}, {Name: "tot", Kind: "num", Pool: []any{1.0, 2.5, 4.0}}}}
+		return fmt.Sprintf("SELECT COUNT(*) AS cnt, SUM(%s) AS tot FROM %%s%s", v.Name, where), out
+	}
 	if len(nums) > 0 && rapid.IntRange(0, 3).Draw(t, label+".agg") == 0 {
 		// grouped aggregate
 		g := &tb.Cols[rapid.IntRange(0, len(tb.Cols)-1).Draw(t, label+".g")]
@@ -195,7 +201,13 @@ func genOuterQuery(t *rapid.T, tb *Table, prefix string, label string) (string, 
 			nums = append(nums, &tb.Cols[i])
 		}
 	}
-	switch rapid.IntRange(0, 4).Draw(t, label+".shape") {
+	switch rapid.IntRange(0, 5).Draw(t, label+".shape") {
+	case 5:
+		if len(nums) > 0 {
+			v := nums[rapid.IntRange(0, len(nums)-1).Draw(t, label+".wcol")]
+			return fmt.Sprintf("SELECT COUNT(*) AS cnt, SUM(%s) AS tot FROM %%s%s", ref(v), where), true
+		}
+		return "SELECT COUNT(*) AS cnt FROM %s" + where, true
 	case 0:
 		return "SELECT * FROM %s" + where, true
 	case 1:
